@@ -13,6 +13,9 @@ def run(ctx):
     if ctx.tier == "thorough":
         ctx.model_check("C04_msm", "MSMProtocol", cfg="MSMProtocolUnlimited", workers=8, heap="4g")
     ctx.model_check("C04_msm", "MSMProtocol", cfg="MSMProtocolNeg", expect_violation="NoPanic", workers=4)
+    # (MC) the batch-affine bucket processor as a state machine: conservation, batchAdd precondition, queue bound
+    ctx.model_check("C04_msm", "MCBuckets", workers=8, heap="4g")
+    ctx.model_check("C04_msm", "MCBuckets", cfg="MCBucketsNeg", expect_violation="BatchValid", workers=2)
     tdir = os.path.join(ctx.work, "traces")
     os.makedirs(tdir)
     # (TV-1) input/output on recipe-defined inputs
